@@ -21,6 +21,7 @@ import Driver.C17
 import Driver.C18
 import Driver.C19
 import Driver.C20
+import Driver.C27
 import Driver.C36
 import Driver.C33
 import Driver.C32
@@ -48,6 +49,7 @@ def step (line : String) : String :=
   | "C23" :: ts => stepC23 ts
   | "C24" :: ts => stepC24 ts
   | "C25" :: ts => stepC25 ts
+  | "C27" :: ts => stepC27 ts
   | "C28" :: ts => stepC28 ts
   | "C29" :: ts => stepC29 ts
   | "C30" :: ts => stepC30 ts
